@@ -246,7 +246,7 @@ def run(ck):
             count("expand:ill-defined")
             if not a.startswith("raise") or m != "bad":
                 disagreements += 1
-                report("%s:ill-defined-family-accepted:%s" % (SITE_EXPAND[cs], cs),
+                report("src/NUMODIS/Crystallo.cxx:InitGSystem:ill-defined-family-accepted:%s" % cs,
                        "%s family <%s>{%s} with b.n = %d: implementation '%s', model '%s'" % (cs, vec(b), vec(n), dot(b, n), a[:80], m[:40]),
                        {"structure": cs, "burgers": b, "plane": n, "implementation": a[:300], "model": m[:300]}, not a.startswith("raise"))
             continue
